@@ -251,7 +251,23 @@ func mutexFieldIndex(t types.Type, name string) int {
 			return i
 		}
 	}
-	return -1
+	// the guard was renamed or changed between Mutex and RWMutex: the struct's only
+	// mutex-typed field is the guard
+	found := -1
+	for i := 0; i < st.NumFields(); i++ {
+		if isMutexType(st.Field(i).Type()) {
+			if found >= 0 {
+				return -1
+			}
+			found = i
+		}
+	}
+	return found
+}
+
+func isMutexType(t types.Type) bool {
+	n := namedOf(t)
+	return n == "sync.Mutex" || n == "sync.RWMutex"
 }
 
 func ruleLocks(structs ...string) ruleFn {
@@ -366,9 +382,17 @@ func ruleLocks(structs ...string) ruleFn {
 				if _, isImm := immutableFields[sname][f.Name()]; isImm {
 					continue
 				}
+				if isMutexType(f.Type()) {
+					continue // the guard itself
+				}
 				mfield, isGuarded := guardedFields[sname][f.Name()]
 				if !isGuarded {
 					if _, known := guardedFields[sname]; known {
+						if valueImmutable(f.Type()) && r.constructorOnly(sname, f.Name()) {
+							nAcc++
+							r.OK("R2.L1", name, "access "+shortStruct(sname)+"."+f.Name(), r.P.pos(fa.Pos()), "a plain value (number, string, bool or function) stored only into structs the storing function has just allocated: immutable after construction")
+							continue
+						}
 						nAcc++
 						r.Bad("R2.L1", name, "access "+shortStruct(sname)+"."+f.Name(), r.P.pos(fa.Pos()), "field "+f.Name()+" of a lock-protected, shared struct is neither listed as guarded nor as immutable-after-construction: shared mutable state used by concurrent requests needs a guard (if it is guarded or immutable, add it to the table with the reason)")
 					}
@@ -464,4 +488,37 @@ func hasUncheckedTry(fn *ssa.Function, id lockID) bool {
 		}
 	}
 	return false
+}
+
+// valueImmutable: a value of this type carries no state that a later use could mutate — basic
+// types, strings and function values (hooks). A pointer, map, slice, channel, interface or
+// struct field set once can still be a shared mutable object (a formatter with a buffer).
+func valueImmutable(t types.Type) bool {
+	switch t.Underlying().(type) {
+	case *types.Basic, *types.Signature:
+		return true
+	}
+	return false
+}
+
+// constructorOnly: every store to the named field anywhere in the module targets a struct
+// allocated in the storing function (composite literal or new), i.e. happens before the
+// object can be shared.
+func (r *Run) constructorOnly(sname, field string) bool {
+	for _, fn := range r.P.Funcs {
+		for _, ins := range allInstrs(fn) {
+			st, ok := ins.(*ssa.Store)
+			if !ok {
+				continue
+			}
+			fa, ok := st.Addr.(*ssa.FieldAddr)
+			if !ok || structOfFieldAddr(fa) != sname || fieldOf(fa) == nil || fieldOf(fa).Name() != field {
+				continue
+			}
+			if al, isAl := fa.X.(*ssa.Alloc); !isAl || al.Parent() != fn {
+				return false
+			}
+		}
+	}
+	return true
 }
